@@ -253,6 +253,9 @@ class Tracker:
             return fo
 
         L.iterm2.open = t_rawopen
+        from . import world as _world
+
+        _world.adopt(L.iterm2, "open")
         self.installed = True
 
     def orig_open(self, *a, **k):
